@@ -75,7 +75,7 @@ func c05exit(c *an.Ctx) {
 				return false
 			}
 			f := an.StaticCallee(ci)
-			return f != nil && f.Name() == "Unlock" && f.Pkg != nil && f.Pkg.Pkg.Path() == an.ModPath+"/internal/dirlock"
+			return f != nil && an.BaseName(f) == "Unlock" && f.Pkg != nil && f.Pkg.Pkg.Path() == an.ModPath+"/internal/dirlock"
 		}})
 	// listener close is conditional on non-nil listeners: the first step is checked from the tcpListener test only loosely
 	ok, missing, w := seqFromEdges(fn, start, nil, an.IsReturn, steps[1:])
